@@ -3,7 +3,7 @@
 """
 
 import logging
-from itertools import permutations
+from itertools import chain, permutations
 from typing import Iterable, Optional
 
 import networkx as nx
@@ -205,6 +205,10 @@ class InlineTranslator:
             # condition on the helper's value that the unfolded element would lose
             cargs = list(replace_cond.atom.symbol.arguments)
             if any(arg.ast_type != ASTType.Variable for arg in cargs) or any(cargs.count(arg) != 1 for arg in cargs):
+                return atom
+            # the element's tuple has to tell the helper's groups apart: equal totals of two groups are one tuple
+            tuple_vars = set(chain(*map(lambda x: collect_ast(x, "Variable"), replace_elem.terms[1:])))
+            if any(arg not in tuple_vars for i, arg in enumerate(cargs) if i != hv_pos):  # pylint: disable=undefined-loop-variable
                 return atom
             rest_elems = [elem for elem in atom.elements if elem != replace_elem]
             ### check if tuple set semantic does not allow for unique identification
